@@ -187,6 +187,44 @@ Proof.
   apply framed_bind; [apply framed_mapMM; intros; apply framed_top_get|]; intros tcs.
   apply framed_bind; [apply framed_top_alloc_list|]; intros; apply framed_ret.
 Qed.
+(* ---- Alignment objects: the setters write the Alignment's own cell and allocate; nothing else *)
+Lemma framed_ali_get l : framed G Tp Mt (ali_get l).
+Proof. intros h; apply ext_refl. Qed.
+Lemma framed_ali_set l c : framed G Tp Mt (ali_set l c).
+Proof.
+  intros h. unfold ali_set. destruct (nth_error (hali h) l); simpl; [|apply ext_refl].
+  unfold ext; simpl; repeat split; auto.
+Qed.
+Lemma framed_eq_loop la : forall lb, framed G Tp Mt (eq_loop la lb).
+Proof.
+  induction la as [|[ta ga] ra IH]; intros lb; simpl; [apply framed_ret|].
+  destruct lb as [|[tb gb] rb]; [apply framed_ret|].
+  apply framed_bind; [apply framed_view_check|]; intros _.
+  apply framed_bind; [apply framed_view_check|]; intros _.
+  apply framed_bind; [apply framed_gro_get|]; intros ca.
+  apply framed_bind; [apply framed_gro_get|]; intros cb.
+  apply framed_bind; [apply framed_top_get|]; intros tca.
+  apply framed_bind; [apply framed_top_get|]; intros tcb.
+  destruct (atom_eqb _ _ _ _); [apply IH | apply framed_ret].
+Qed.
+Lemma framed_mol_eq A B : framed G Tp Mt (mol_eq A B).
+Proof.
+  unfold mol_eq. apply framed_bind; [apply framed_mt_get|]; intros na.
+  apply framed_bind; [apply framed_mt_get|]; intros nb.
+  destruct (negb _); [apply framed_ret|]. destruct (negb _); [apply framed_ret|]. apply framed_eq_loop.
+Qed.
+Lemma framed_ali_clear a side : framed G Tp Mt (ali_clear a side).
+Proof. unfold ali_clear. apply framed_bind; [apply framed_ali_get | intros; apply framed_ali_set]. Qed.
+Lemma framed_ali_assign a side m : framed G Tp Mt (ali_assign a side m).
+Proof.
+  unfold ali_assign. apply framed_bind; [apply framed_ali_get|]; intros c.
+  apply framed_bind.
+  - destruct (side_get side c); [destruct (side_get (negb side) c)|]; try apply framed_ret. apply framed_mol_eq.
+  - intros ok. destruct ok; [|apply framed_fail].
+    apply framed_bind; [apply framed_mol_init|]; intros Y.
+    apply framed_bind; [|intros; apply framed_ret].
+    destruct Y; try apply framed_fail. apply framed_ali_set.
+Qed.
 End Rules.
 
 (* ------------------------------------------------------------------ footprints *)
